@@ -125,6 +125,12 @@ namespace awkward {
 
   const TypePtr
   UnionType::type(int64_t index) const {
+    if (index < 0  ||  index >= numtypes()) {
+      throw std::invalid_argument(
+        std::string("index ") + std::to_string(index)
+        + std::string(" for union with only ") + std::to_string(numtypes())
+        + std::string(" types") + FILENAME(__LINE__));
+    }
     return types_[(size_t)index];
   }
 }
